@@ -74,7 +74,7 @@ func MarshalValue(self Value, isInner bool) (out interface{}, skipNull bool) {
 			marshaled, skipNull := MarshalValue(*value, true)
 
 			// skip builtin functions
-			if marshaled != nil && !skipNull {
+			if !skipNull {
 				output = append(output, marshaled)
 			}
 		}
